@@ -933,6 +933,11 @@ func c11(c *core.Ctx) {
 	// upper-bound test (C07/R1) — a negated MinInt32 preface stays negative and make() panics
 	c.Borrow("C07", map[string]string{"R1": "R10"}, c07)
 
+	// ---------------------------------------------------------------- R11 (shared)
+	// "404 for unknown paths without running application code": the only patterns registered are the exact
+	// join(base, service/method) paths of the descriptor entries — no subtree pattern, no alias (C12/R4)
+	c.Borrow("C12", map[string]string{"R4": "R11"}, c12)
+
 }
 
 func sameTable(a, b map[string]string) bool {
@@ -986,6 +991,25 @@ func c11OneTrailer(c *core.Ctx, hcs []handlerClosure) {
 				}
 			}
 			return true
+		}
+		// ... and the trailer follows the handler's return at once: nothing in between waits for the rest of the
+		// request (a drain of the body blocks until the client half-closes, which a client waiting for the final
+		// status may never do)
+		if len(hc.Fn.Params) == 2 {
+			rPar := hc.Fn.Params[1]
+			for i, hs := range sites {
+				reach := core.Walk(core.After(hs), isTrailerWrite, nil)
+				bad := token.NoPos
+				for in := range reach {
+					if _, isDefer := in.(*ssa.Defer); isDefer {
+						continue
+					}
+					if readsRequestBody(in, rPar, 0) {
+						bad = in.Pos()
+					}
+				}
+				c.Check(bad == token.NoPos, fmt.Sprintf("%s:dispatch#%d:trailer-not-behind-a-request-read", key, i), hs.Pos(), "no read of the request body between the handler's return and the trailer write", "between the handler's return and the trailer write the request body is read (drained): the final status is held back until the client stops sending, and a client that waits for the status first never gets it")
+			}
 		}
 		for i, hs := range sites {
 			mn, mx, ok := core.CountRange(core.After(hs), isTrailerWrite, edgeOK)
